@@ -43,6 +43,10 @@ type Script struct {
 	// Background: the caller's context is one that can never be cancelled (context.Background with a
 	// value); only for schedules without caller cancellation and without members that wait for it
 	Background bool `json:"background,omitempty"`
+	// Nested: the unifier under test has, as its member 0, another concurrent unifier over the two
+	// scripted members (seen through a probe that records the context it is given and hands readers
+	// through untouched) and, as its member 1, a registry that fails at once
+	Nested bool `json:"nested,omitempty"`
 	// ReadAll: the returned reader is read to its end before it is closed
 	ReadAll bool `json:"read_all,omitempty"`
 	// Timed variant: instead of exact events, members answer after virtual delays.
@@ -158,6 +162,39 @@ func (m *member) ResolveManifest(ctx context.Context, repo string, d ociregistry
 	return m.resolve(ctx)
 }
 
+// probe sits between an outer unifier and its member and records the contexts the member is given.
+type probe struct {
+	ociregistry.Interface
+	ctxs []context.Context
+}
+
+func (p *probe) GetBlob(ctx context.Context, repo string, d ociregistry.Digest) (ociregistry.BlobReader, error) {
+	p.ctxs = append(p.ctxs, ctx)
+	return p.Interface.GetBlob(ctx, repo, d)
+}
+func (p *probe) GetBlobRange(ctx context.Context, repo string, d ociregistry.Digest, o0, o1 int64) (ociregistry.BlobReader, error) {
+	p.ctxs = append(p.ctxs, ctx)
+	return p.Interface.GetBlobRange(ctx, repo, d, o0, o1)
+}
+func (p *probe) GetManifest(ctx context.Context, repo string, d ociregistry.Digest) (ociregistry.BlobReader, error) {
+	p.ctxs = append(p.ctxs, ctx)
+	return p.Interface.GetManifest(ctx, repo, d)
+}
+func (p *probe) ResolveBlob(ctx context.Context, repo string, d ociregistry.Digest) (ociregistry.Descriptor, error) {
+	p.ctxs = append(p.ctxs, ctx)
+	return p.Interface.ResolveBlob(ctx, repo, d)
+}
+func (p *probe) ResolveManifest(ctx context.Context, repo string, d ociregistry.Digest) (ociregistry.Descriptor, error) {
+	p.ctxs = append(p.ctxs, ctx)
+	return p.Interface.ResolveManifest(ctx, repo, d)
+}
+
+var errDead = errors.New("this registry is down")
+
+func deadRegistry() ociregistry.Interface {
+	return &ociregistry.Funcs{NewError: func(ctx context.Context, method, repo string) error { return errDead }}
+}
+
 type outcome struct {
 	done   bool
 	err    error
@@ -179,6 +216,11 @@ func run(s Script, v *vt.V) {
 			}
 		}
 		u := ociunify.New(ms[0], ms[1], &ociunify.Options{ReadPolicy: ociunify.ReadConcurrent})
+		var pr *probe
+		if s.Nested {
+			pr = &probe{Interface: u}
+			u = ociunify.New(pr, deadRegistry(), &ociunify.Options{ReadPolicy: ociunify.ReadConcurrent})
+		}
 		ctx, cancel := context.WithCancel(context.Background())
 		defer cancel()
 		if s.Background && !contains(s.Events, "X") && s.Cancel == 0 && s.Mode[0] != "ctx" && s.Mode[1] != "ctx" {
@@ -255,6 +297,13 @@ func run(s Script, v *vt.V) {
 				// it has been read to its end - (unless the caller itself has cancelled)
 				if out.member >= 0 && !cancelled && ms[out.member].ctx.Err() != nil {
 					fail("context-dead-early", "the context given to the chosen member %d is already cancelled while the returned reader is open", out.member)
+				}
+				if pr != nil && out.member >= 0 && !cancelled {
+					for _, c := range pr.ctxs {
+						if c.Err() != nil {
+							fail("context-dead-early", "nested: the context the outer unifier gave to its chosen member (the inner unifier) is already cancelled while the returned reader is open")
+						}
+					}
 				}
 				err := out.rd.Close()
 				if out.member >= 0 && !cancelled {
@@ -352,6 +401,23 @@ func run(s Script, v *vt.V) {
 						close(ms[i].release)
 						answer(i)
 					}
+				case "AB":
+					// both members answer at the same instant
+					if !decided {
+						switch {
+						case ms[0].ok && ms[1].ok:
+							tolerant[0], tolerant[1] = true, true
+							decided = true
+						case ms[0].ok:
+							decided, wantMember = true, 0
+						case ms[1].ok:
+							decided, wantMember = true, 1
+						default:
+							decided, wantMember = true, -1
+						}
+					}
+					close(ms[0].release)
+					close(ms[1].release)
 				case "X":
 					cancelled = true
 					if !decided {
@@ -443,6 +509,13 @@ func run(s Script, v *vt.V) {
 				fail("context-not-cancelled", "member %d's context is still live after everything finished", i)
 			}
 		}
+		if pr != nil {
+			for _, c := range pr.ctxs {
+				if c.Err() == nil {
+					fail("context-not-cancelled", "nested: the context the outer unifier gave to its member (the inner unifier) is still live after everything finished")
+				}
+			}
+		}
 		if n := bubbleGoroutines(); n > base {
 			fail("goroutine-leak", "%d goroutine(s) remain blocked after both members returned and the reader was closed (baseline %d, now %d)", n-base, base, n)
 		}
@@ -529,6 +602,10 @@ func enumerate(yield func(Script) bool) {
 							}
 						}
 					}
+					// both members answer at the same instant
+					if !yield(Script{Entry: entry, OK: ok, Mode: [2]string{"gate", "gate"}, Events: []string{"AB", "C"}, CloseErr: closeErr}) {
+						return
+					}
 					// one member answers only once its context is cancelled
 					for ci := 0; ci < 2; ci++ {
 						modes := [2]string{"gate", "gate"}
@@ -554,7 +631,7 @@ func TestPropSchedules(t *testing.T) {
 	prop = &vt.Prop[Script]{
 		ID:   "C16",
 		Name: "UnifyConcurrentSchedules",
-		Rule: "complete enumeration, executed in synctest bubbles with every event separated by synctest.Wait: 5 read entry points x 2x2 member outcomes x both completion orders x caller cancellation {none, before any answer, between the answers, after both, after the reader was closed} x returned reader closed before / after the loser answers x reader Close succeeding / failing x the returned reader read to its end before it is closed or not, schedules without caller cancellation also under a caller context that can never be cancelled, plus members that answer only once their context is cancelled (one or both); oracle = the call returns exactly when the ordered events decide it, with the first successful answer (error only if both failed or the caller cancelled first; when a cancellation-driven answer coincides with the cancellation either is accepted); the chosen member's context is live until the returned reader is closed and cancelled afterwards (resolve-style: cancelled on return); every reader of the member not chosen is closed; both members' contexts end cancelled; the number of goroutines in the bubble is back at its baseline; non-trivial = some member succeeds or the caller cancels; distinct = the schedule",
+		Rule: "complete enumeration, executed in synctest bubbles with every event separated by synctest.Wait: 5 read entry points x 2x2 member outcomes x both completion orders x caller cancellation {none, before any answer, between the answers, after both, after the reader was closed} x returned reader closed before / after the loser answers x reader Close succeeding / failing x the returned reader read to its end before it is closed or not, schedules without caller cancellation also under a caller context that can never be cancelled, plus members that answer only once their context is cancelled (one or both) and members that answer at the same instant; every schedule also with the unifier under test laid over another concurrent unifier (seen through a probe that records the context it is handed) and a registry that is down; oracle = the call returns exactly when the ordered events decide it, with the first successful answer (error only if both failed or the caller cancelled first; when a cancellation-driven answer coincides with the cancellation either is accepted); the chosen member's context is live until the returned reader is closed and cancelled afterwards (resolve-style: cancelled on return); every reader of the member not chosen is closed; both members' contexts end cancelled; the number of goroutines in the bubble is back at its baseline; non-trivial = some member succeeds or the caller cancels; distinct = the schedule",
 		Run:  run,
 	}
 	shard, shards := vt.Shard()
@@ -572,6 +649,10 @@ func TestPropSchedules(t *testing.T) {
 				s2 := s0
 				s2.Background, s2.ReadAll = true, isReader
 				variants = append(variants, s2)
+			}
+			for _, sv := range append([]Script{}, variants...) {
+				sv.Nested = true
+				variants = append(variants, sv)
 			}
 			for _, s := range variants {
 				k++
